@@ -301,7 +301,8 @@ def adc(img, gain, saturation_capacity=None, warn_saturate=False, dtype=None):
             if np.any(img > saturation_capacity):
                 warnings.warn('Frame has saturated pixels.')
 
-        # Apply the saturation limit
+        # Apply the saturation limit (on a copy: the caller's frame is left alone)
+        img = img.copy()
         img[img > saturation_capacity] = saturation_capacity
 
     # Determine the polynomial order
